@@ -80,7 +80,8 @@ func (p *Party) HandleMessageEvent(e otr3.MessageEvent, m []byte, err error, tra
 // HandleErrorMessage implements otr3.ErrorMessageHandler.
 func (p *Party) HandleErrorMessage(e otr3.ErrorCode) []byte {
 	p.Errs = append(p.Errs, e)
-	return []byte(fmt.Sprintf("err-%d", int(e)))
+	// short (an application may well answer with a word) and different from party to party
+	return []byte(fmt.Sprintf("e%d-%03d", int(e), (p.R.Seed/1000+p.R.Seed)%1000))
 }
 
 // ReceivedSymmetricKey implements otr3.ReceivedKeyHandler.
@@ -105,12 +106,17 @@ type PartyOpts struct {
 	Frag       int  // fragment size, 0 = off
 	NoErrH     bool // leave the error-message handler unset
 	NoHandlers bool
+	ShortKeys  int  // this many of the party's first D-H exponents are ones whose public value has a zero top byte
+	ShortFrom  int  // index into ShortExps to start from (parties of one world use different ones)
 	SysRand    bool // leave Conversation.Rand unset: the library then uses the operating system's generator
 }
 
 // NewParty builds a conversation with tracked randomness and recorders.
 func NewParty(o PartyOpts) *Party {
 	p := &Party{Name: o.Name, R: NewRand(o.Seed), Pol: o.Pol, KeyI: o.KeyI}
+	for i := 0; i < o.ShortKeys; i++ {
+		p.R.Force40 = append(p.R.Force40, ShortExps[(o.ShortFrom+i)%len(ShortExps)])
+	}
 	c := &otr3.Conversation{}
 	if !o.SysRand {
 		c.Rand = p.R
